@@ -12,4 +12,4 @@ if errs:
     print("translator errors (build continues; the affected check will report them):", errs)
 common.regen_coqproject()
 PY
-cd coq && timeout 3000 make -j16 2>&1 | tail -5
+cd coq && timeout 3000 make -k -j16 2>&1 | grep -v "^COQC\|^COQDEP" | tail -15 || true
